@@ -583,7 +583,7 @@ func explore(eng0 *Engine, cfg Config, in instance, selfMax int, smtlog string) 
 		wg.Add(1)
 		go func(w int) {
 			defer wg.Done()
-			solver, err := NewSolver(Z3, cfg.QueryTimeout)
+			solver, err := NewSolver(primarySolverKind(), cfg.QueryTimeout)
 			if err != nil {
 				mu.Lock()
 				res.inconcl = append(res.inconcl, "cannot start solver: "+err.Error())
